@@ -5,18 +5,27 @@ From Coq Require Import Sorted Relations.
 From HpoV Require Import Gen.Consts Model.Base Model.Group Model.Onto Model.Query Model.Script
   Proofs.GroupP Proofs.ClosureP Proofs.DistP Proofs.QgoodP Proofs.C19P.
 
-Theorem builder_is_modifier icf s codes o t : run_script icf s = Ok (codes, Ok o) -> In t (ar_terms (o_arena o)) ->
+(* for EVERY ontology with exact ancestor caches (Builder-built, JAX-loaded, sub-ontology, accepted binary file) *)
+Theorem qgood_is_modifier o t : qgood o -> In t (ar_terms (o_arena o)) ->
   (is_modifier o t = true <-> exists r, In r (o_mod o) /\ (r = t_id t \/ anc (o_arena o) (t_id t) r)).
 Proof.
-  intros Hs Ht. pose proof (run_script_qgood icf s codes o Hs) as G.
+  intros G Ht.
   rewrite (is_modifier_spec o t (q_sorted_a o G t Ht)). split; intros [r [Hr Hd]]; exists r; (split; [exact Hr|]);
     (destruct Hd as [E|Hd]; [left; exact E|right; apply (q_exact o G t Ht r); exact Hd]).
 Qed.
 
-Theorem builder_categories icf s codes o t : run_script icf s = Ok (codes, Ok o) -> In t (ar_terms (o_arena o)) ->
+Theorem qgood_categories o t : qgood o -> In t (ar_terms (o_arena o)) ->
   forall c, In c (categories o t) <-> In c (o_cat o) /\ (c = t_id t \/ anc (o_arena o) (t_id t) c).
 Proof.
-  intros Hs Ht c. pose proof (run_script_qgood icf s codes o Hs) as G.
+  intros G Ht c.
   rewrite (categories_spec o t (q_sorted_a o G t Ht) c). split; intros [Hc Hd]; (split; [exact Hc|]);
     (destruct Hd as [E|Hd]; [left; exact E|right; apply (q_exact o G t Ht c); exact Hd]).
 Qed.
+
+Theorem builder_is_modifier icf s codes o t : run_script icf s = Ok (codes, Ok o) -> In t (ar_terms (o_arena o)) ->
+  (is_modifier o t = true <-> exists r, In r (o_mod o) /\ (r = t_id t \/ anc (o_arena o) (t_id t) r)).
+Proof. intros Hs. apply qgood_is_modifier, (run_script_qgood icf s codes o Hs). Qed.
+
+Theorem builder_categories icf s codes o t : run_script icf s = Ok (codes, Ok o) -> In t (ar_terms (o_arena o)) ->
+  forall c, In c (categories o t) <-> In c (o_cat o) /\ (c = t_id t \/ anc (o_arena o) (t_id t) c).
+Proof. intros Hs. apply qgood_categories, (run_script_qgood icf s codes o Hs). Qed.
